@@ -29,7 +29,7 @@
 (*                      SameLabelIffConnected|BorderJoinsNeighbourCluster| *)
 (*                      RestIsNoise|GapFree|NumClassesIsC>                 *)
 (*                Predict/<backend>/<NoResult|Malformed|OutOfRange|        *)
-(*                      EmptyNbhdNotNoise|NotPlurality>                    *)
+(*                      EmptyNbhdNotNoise/out=<label>|NotPlurality>        *)
 (*                Backend/<CoreLabelsDiffer|NoiseSetDiffers>               *)
 (***************************************************************************)
 EXTENDS DbscanProps, Json, IOUtils
@@ -70,7 +70,7 @@ FitFails(f, n, D, cnb, core, comp) ==
 (* one query row: qnb = training rows within eps of it, out = label returned *)
 QueryFails(P, qnb, y, k, out) ==
     IF ~PredictInRange(k, out) THEN {P \o "OutOfRange"}
-    ELSE IF ~PredictEmptyIsNoise(qnb, out) THEN {P \o "EmptyNbhdNotNoise"}
+    ELSE IF ~PredictEmptyIsNoise(qnb, out) THEN {P \o "EmptyNbhdNotNoise/out=" \o ToString(out)}
     ELSE IF ~PredictPluralityV(qnb, Votes(qnb, y, k), out) THEN {P \o "NotPlurality"}
     ELSE {}
 
